@@ -13,7 +13,8 @@
    3. table invariant: `tableOK_append`, `packName_correct`
    4. ★ `roundtrip_nocompress`, ★ `len_exact`
    5. ★ `roundtrip_compress`, `pack_fits`
-   6. `unpackMsg_wf`, `decode_pack_canonical`, `raw_bytes_verbatim`, `spec_model_ok`
+   6. `unpackMsg_wf`, `decode_pack_canonical`, `header_bits_preserved`, `reencode_same_header`,
+      `raw_bytes_verbatim`, `spec_model_ok`
    7. non-vacuity examples, `pins`
 -/
 import MosVerif.Lemmas.TranslatedC02
@@ -123,6 +124,29 @@ theorem decode_pack_canonical (b : Bytes) (m : Msg) (h : unpackMsg b = .ok m) (c
   obtain ⟨bs, h1, _, _, h4, _⟩ := packMsg_roundtrip m c (unpackMsg_wf b m h)
   exact ⟨bs, h1, h4⟩
 
+/-- ★ No header bit is lost by decoding: re-encoding the decoded flag word gives back ALL 16 bits
+    (QR, opcode, AA, TC, RD, RA, the reserved bit Z, AD, CD, rcode) and the id. -/
+theorem header_bits_preserved (id bits : Nat) (hid : id < 65536) (hb : bits < 65536) :
+    (headerOfBits id bits).id = id ∧ bitsOfHeader (headerOfBits id bits) = bits ∧
+    headerWF (headerOfBits id bits) = true := by
+  refine ⟨rfl, bitsOfHeader_headerOfBits id bits hb, ?_⟩
+  simp only [headerWF, headerOfBits, u16, Bool.and_eq_true]
+  exact ⟨⟨decide_eq_true hid, decide_eq_true (by omega)⟩, decide_eq_true (by omega)⟩
+
+/-- ★ Re-encoding an accepted message without compression reproduces the first four octets of
+    the input (id and the complete flag word — "any header bits") and decodes to the same message. -/
+theorem reencode_same_header (b : Bytes) (m : Msg) (h : unpackMsg b = .ok m) :
+    ∃ re, packMsg m false 0 (msgLen m) = .ok re ∧ re.take 4 = b.take 4 ∧ unpackMsg re = .ok m := by
+  obtain ⟨re, h1, _, _, h4, _, h6⟩ := packMsg_roundtrip m false (unpackMsg_wf b m h)
+  obtain ⟨i0, i1, b0, b1, rest, hb, hh⟩ := unpackMsg_hdr_inv h
+  refine ⟨re, h1, ?_, h4⟩
+  rw [h6, hh, hb]
+  simp only [headerOfBits]
+  have := bitsOfHeader_headerOfBits (be16 i0 i1) (be16 b0 b1) (be16_lt _ _)
+  simp only [headerOfBits] at this
+  rw [this, enc16_be16, enc16_be16]
+  rfl
+
 /-- Records of types the proxy does not interpret are carried byte for byte: their RDATA octets
     appear in the output verbatim, preceded by their length, with or without compression. -/
 theorem raw_bytes_verbatim (m : Msg) (c : Bool) (hm : msgWF m = true) (bs : Bytes)
@@ -131,7 +155,7 @@ theorem raw_bytes_verbatim (m : Msg) (c : Bool) (hm : msgWF m = true) (bs : Byte
     ∃ pre post, bs = pre ++ (enc16 d.length ++ d ++ post) := by
   obtain ⟨bs', h1, _, _, _, h5⟩ := packMsg_roundtrip m c hm
   rw [h] at h1; cases h1
-  exact h5 r d hr hd
+  exact h5.1 r d hr hd
 
 /-- The executable specification used as the oracle on the implementation's bytes
     (`WireIO.packSpec`, size 0) accepts the model's own output for every well-formed message. -/
@@ -153,7 +177,7 @@ def nTricky : Name := [3, 97, 1, 98]
 
 /-- a response with two questions and records of several kinds, sharing suffixes -/
 def exMsg : Msg :=
-  { hdr := ⟨0x1234, true, 2, true, false, true, true, false, true, 3⟩
+  { hdr := ⟨0x1234, true, 2, true, false, true, true, false, true, 3, true⟩
     questions := [⟨nAB, 1, 1⟩, ⟨nTricky, 28, 1⟩]
     answers := [⟨nAB, 1, 1, 300, .a [1, 2, 3, 4]⟩, ⟨nXAB, 5, 1, 60, .name nAB⟩,
       ⟨nTricky, 15, 1, 60, .mx 10 nXAB⟩]
